@@ -403,7 +403,73 @@ def h_runtime(e, m, mode):
     return "ok"
 
 
-HARNESSES = {"lint": h_lint, "fault_text": h_fault_text, "runtime": h_runtime, "directive_shapes": h_directive_shapes}
+# ---- token corruptions of every line shape --------------------------------------------------------
+
+CORRUPT_BASE = {
+    "riscv": [
+        "add x1, x2, x3", "addi x1, x2, -5", "slli x1, x2, 3", "lw x1, 8(x2)", "lw x1, x2, 8", "sw x1, 8(x2)", "sw x1, x2, 8", "beq x1, x2, here", "beq x1, x2, here+0x8", "beq x1, x2, 8",
+        "jal x1, here", "jal x1, here+0x4", "jal x1, 16", "jalr x1, x2, 4", "lui x1, 5", "auipc x1, 5", "li x1, 70000", "la x1, v", "la x1, v[1]", "lw x1, v", "lw x1, v[1]", "sw x1, v, x5", "sb x1, v[1], x5",
+        "mv x1, x2", "nop", "ecall", "csrrw x1, 0x001, x2", "csrrwi x1, 0x001, 3", "fence x0, x0", "here: add x1, x2, x3", "mul x1, x2, x3",
+    ],
+    "toy": ["LDA 5", "STO 0x010", "ADD w", "BRZ here", "INC", "here: DEC", "NOT", "ZRO"],
+}
+JUNK = ["", "+", "-", "8", "08", "0x", "0xg", "0b2", "x99", ",", "(", ")", "[", "]", ":", "here+", "here+8", "here+0b100", "here+0xg", "here-4", "+0x4", "v[", "v[]", "v[x1]", "v[-1]", "1e3", "0x1p3", "#", "'", '"', ".", ".word", "%hi(v)", "x1x", chr(92), chr(9), "nop", "4(", "4(x2", "(x2)", "--1", "++1", "0x-1", chr(0x663), chr(0)]
+
+
+def tokens_of(line):
+    import re
+
+    return [t for t in re.split(r"(\s+|,|\(|\)|\[|\]|\+|:)", line) if t != ""]
+
+
+def h_corrupt(e, kind, i):
+    """one grammar line shape; every token of it is replaced by / followed by / preceded by every junk
+    token; the corrupted line is loaded inside a program that defines the label and the variable
+    it refers to.  Loading succeeds or raises a ParserException with a line of the text."""
+    from architecture_simulator.simulation.riscv_simulation import RiscvSimulation
+    from architecture_simulator.simulation.toy_simulation import ToySimulation
+    from architecture_simulator.isa.parser_exceptions import ParserException, MemorySizeException
+    from architecture_simulator.uarch.memory.memory import MemoryAddressError
+
+    base = CORRUPT_BASE[kind][i]
+    toks = tokens_of(base)
+    bad = []
+    count = 0
+    frame = (".data\nv: .word 1, 2\n.text\n%s\nhere2: nop\n" + ("" if base.startswith("here:") else "here: nop\n")) if kind == "riscv" else (".data\nw: .word 1\n.text\n%s\n" + ("" if base.startswith("here:") else "here: NOP\n"))
+    for k in range(len(toks)):
+        if toks[k].isspace():
+            continue
+        for j in JUNK:
+            for how in ("replace", "after", "before"):
+                t2 = list(toks)
+                if how == "replace":
+                    t2[k] = j
+                elif how == "after":
+                    t2[k] = toks[k] + j
+                else:
+                    t2[k] = j + toks[k]
+                line = "".join(t2)
+                text = frame % line
+                nlines = len(text.splitlines())
+                count += 1
+                sim = RiscvSimulation() if kind == "riscv" else ToySimulation()
+                try:
+                    sim.load_program(text)
+                    res = "ok"
+                except ParserException as ex:
+                    res = "ok" if isinstance(ex.line_number, int) and 1 <= ex.line_number <= max(nlines, 1) else "ParserException with line %r of %d" % (ex.line_number, nlines)
+                except (MemorySizeException, MemoryAddressError):
+                    res = "size error for a program that fits"
+                except Exception as ex:  # noqa
+                    res = type(ex).__name__ + ": " + str(ex)[:60]
+                if res != "ok":
+                    bad.append((line, res))
+    e.observe("texts", count)
+    e.claim("corrupted-line-loads-or-raises-parser-error", not bad, {"bad": bad[:4], "count": len(bad)})
+    e.claim("canary:corrupt", count == 0)
+
+
+HARNESSES = {"lint": h_lint, "fault_text": h_fault_text, "runtime": h_runtime, "directive_shapes": h_directive_shapes, "corrupt": h_corrupt}
 
 
 def jobs(tier, seed):
@@ -423,6 +489,9 @@ def jobs(tier, seed):
     for kind in ("riscv", "toy"):
         for n in (1, 2, 3, 4) + ((5,) if tier == "thorough" else ()):
             out.append({"label": "shapes-%s-%d" % (kind, n), "harness": "directive_shapes", "args": {"kind": kind, "n": n}, "cost": 6**n / 50, "validate": False})
+    for kind in ("riscv", "toy"):
+        for i in range(len(CORRUPT_BASE[kind])):
+            out.append({"label": "corrupt-%s-%d" % (kind, i), "harness": "corrupt", "args": {"kind": kind, "i": i}, "cost": 8, "validate": False})
     for m in ("lb", "lh", "lw", "lbu", "lhu", "sb", "sh", "sw", "ecall"):
         for mode in ("single_stage_pipeline", "five_stage_pipeline"):
             out.append({"label": "runtime-%s-%s" % (m, mode[:4]), "harness": "runtime", "args": {"m": m, "mode": mode}, "cost": 3})
